@@ -47,8 +47,8 @@ CHECKS = {
         technique=E2 + "; RNG replaced by its contract (fresh quantified symbols)",
     ),
     "C17": dict(
-        text="Fold loops of SequentialModel/ConfigurableModel/CompositeConstraint/apply_constraint_chain: verification conditions generated from the real AST with uninterpreted stages and an UNBOUNDED stage count (invariant initiation/preservation/post, one call per stage in order, argument forwarding) discharged by z3. The real forward() methods of sequential, DeepJSCC, channel-code, Wyner-Ziv (all 16 presence combinations), feedback (1..5 rounds) and multiple-access models (1..3 users, shared/separate layouts, symbolic tensors) are executed with uninterpreted recording stubs, so the order/exactly-once/argument claims hold for all stage functions per enumerated size. ParallelModel: the thread pool is replaced by its contract and EVERY completion order admissible for the worker count (n <= 4 quick / 5 thorough, workers 1, 2, n, default) is enumerated, with and without a failing branch; refuting orders are replayed on the real ThreadPoolExecutor with event-gated branches. BranchingModel: all 2^n truth assignments of uninterpreted conditions.",
-        note="Trusted: concurrent.futures contract as stated in DESIGN 4.2 (schedules are those the contract admits, not observed timings); free term algebra of stubs; foldvc AST translation. Add/remove-step histories are bounded (exhaustive to length 3/4).",
+        text="Fold loops of SequentialModel/ConfigurableModel/CompositeConstraint/apply_constraint_chain: verification conditions generated from the real AST with uninterpreted stages and an UNBOUNDED stage count (invariant initiation/preservation/post, one call per stage in order, argument forwarding) discharged by z3. The real forward() methods of sequential, DeepJSCC, channel-code, Wyner-Ziv (all 16 presence combinations), feedback (1..5 rounds) and multiple-access models (1..3 users, shared/separate layouts, symbolic tensors) are executed with uninterpreted recording stubs, so the order/exactly-once/argument claims hold for all stage functions per enumerated size. ParallelModel: the thread pool is replaced by its contract and EVERY completion order admissible for the worker count (n <= 4 quick / 5 thorough, workers 1, 2, n, default) is enumerated, with and without a failing branch; refuting orders are replayed on the real ThreadPoolExecutor with event-gated branches. BranchingModel: all 2^n truth assignments of uninterpreted conditions. add_step/remove_step of ConfigurableModel and ParallelModel: list-model VCs from the real AST over z3 sequences of UNBOUNDED length (view' = view ++ [s]; view' = view without position i; TypeError / IndexError before any mutation).",
+        note="Trusted: concurrent.futures contract as stated in DESIGN 4.2 (schedules are those the contract admits, not observed timings); free term algebra of stubs; foldvc AST translation. Add/remove-step histories: by induction over the proved mutator contracts; exhaustive histories to length 3/4 as a bounded cross-check.",
         design="7/C17",
         technique="contracts on the real forward() methods: unbounded fold-loop VCs from the AST (z3, uninterpreted stages); execution with uninterpreted stubs; thread pool replaced by its contract with exhaustive admissible completion orders",
     ),
